@@ -49,4 +49,11 @@ TEXT["C13"] = {
              "temporal except (3.1, scope changed) with a witness that the exception is real, v2 TD:N => 0 on every vector.",
     "ref": "5 (C13)", "note": _NOTE,
     "technique": "Lean 4 kernel proof (grid lemma conjuncts, symbolic reduction) + exhaustive differential correspondence"}
+TEXT["C20"] = {
+    "level": "Theorems on the model's tables: Get/String inverse on every code of every metric (v3_tables_ok, v2_tables_ok), every other string "
+             "parses to 0 and every other integer prints as empty (get_other / str_other, for ALL strings and integers), validity separates, "
+             "code sets = specification's, weights = specification's exact decimals correctly rounded (incl. scope-dependent PR and Modified "
+             "fall-backs), version labels. Correspondence: exhaustive dump of all 36 metric types and both version types.",
+    "ref": "5 (C20)", "note": _NOTE,
+    "technique": "Lean 4 proof (decide on tables + generic find? lemmas) + exhaustive table-dump correspondence"}
 NOT_YET = {}
